@@ -7,52 +7,25 @@ import CanvasGen.SweepF
 /-! # C06 — Containment and winding queries (partial)
 
 `windings(zs)` is modelled by hand (tied by exhaustive correspondence over all intersection lists
-of length ≤ 4 and random longer ones through hook VerifWindings). Proved: exactly which lists make
-the look-ahead read past the end (a panic in the real code — and a witness that such a list is
-produced for open subpaths), the generic case (no endpoint hits) is the signed crossing count, the
-vertex-pair rule, boundary reporting, and reversal negates the specification's winding number.
-Second wave: `RayIntersections` on flat subpaths is modelled in exact arithmetic (`rayHits`: the
-hits of every segment with their flags, pre-checks, stable sort by X; tied by exact correspondence of
-the real hit lists) and `windings ∘ rayHits` is PROVED to be the winding number of the specification
-for every closed flat subpath and every point off the path whose ray does not pass through the
-subpath's start vertex — including rays through vertices, along horizontal edges, and arbitrary
-self-intersections. The excluded class is the recorded start-vertex defect (witness below). On top:
-Windings/Contains of a whole path, Filling's inner loop, Crossings' count, CCW's vertex search and
-angle test (CCW = sign of the area for triangles), and soundness of the Lean verdict that judges the
-real library's answers. -/
+of length ≤ 4 and random longer ones through hook VerifWindings); since 0cf6beb it is total.
+`RayIntersections` on flat subpaths is modelled in exact arithmetic (`rayHits`: the hits of every
+segment with their flags, pre-checks, the rotation of the start vertex' end hit at Close (847036a),
+stable sort by X; tied by exact correspondence of the real hit lists) and `windings ∘ rayHits` is
+PROVED to be the winding number of the specification for every closed flat subpath and every point
+off the path — rays through vertices, through the start vertex, along horizontal edges, and arbitrary
+self-intersections included. On top: the boundary flag, Windings/Contains of a whole path, Filling's
+inner loop, Crossings' count, CCW's vertex search and angle test (CCW = sign of the area for
+triangles), FillRule.Fills as translated from source, and soundness of the Lean verdict that judges
+the real library's answers. -/
 namespace C06
 open Canvas Canvas.C06 Canvas.Wn
 
-/-- endpoint hits come in adjacent pairs (what RayIntersections produces for closed subpaths);
-`pending` = the previous element was an endpoint hit that still awaits its partner -/
-def pairedAux : Bool → List Z → Bool
-  | false, [] => true
-  | true, [] => false
-  | true, _ :: rest => pairedAux false rest
-  | false, z :: rest =>
-    if z.t0zero then pairedAux false rest
-    else if !z.endpoint then pairedAux false rest
-    else if rest.isEmpty && z.same then true   -- `z.Same || zs[i+1].Same` short-circuits
-    else pairedAux true rest
-
-def Paired (zs : List Z) : Prop := pairedAux false zs = true
-
-/-- The look-ahead `zs[i+1]` leaves the list exactly when endpoint hits are not paired. -/
-theorem go_panic_iff (zs : List Z) (n : Int) (b : Bool) (st : Bool × Bool) :
-    go zs n b st = .panic ↔ ¬ Paired zs := by
-  unfold Paired
-  fun_induction go zs n b st <;> simp_all [pairedAux]
-
-/-- totality of `windings` on paired lists -/
-theorem windings_total (zs : List Z) (h : Paired zs) : windings zs ≠ .panic := by
-  intro hp
-  exact (go_panic_iff zs 0 false (false, false)).mp hp h
-
-/-- and the defect: a single endpoint hit (what an OPEN subpath yields when the query point is
-level with its first or last vertex) makes the real code index out of range -/
-theorem windings_panics_on_unpaired_endpoint :
-    windings [⟨false, false, true, false⟩] = .panic := by
-  simp [windings, go]
+/-- Since 0cf6beb `windings` is total: an end-point hit that is the last of the list (end point of an
+open subpath, nothing to pair it with) stops the loop and counts nothing. (Before, the look-ahead
+`zs[i+1]` left the list: index-out-of-range panic.) -/
+theorem windings_unpaired_endpoint_ignored (z : Z) (n : Int) (b : Bool) (st : Bool × Bool)
+    (h0 : z.t0zero = false) (he : z.endpoint = true) : go [z] n b st = .ok n b := by
+  simp [go, h0, he]
 
 /-- A path that comes from above, runs along the ray on a horizontal edge and leaves downwards
 (hits: overlap end point + tangent end point, twice, both `into`) passes through the ray once and is
@@ -189,63 +162,60 @@ example : offChain ⟨-1, 0⟩ [⟨0, 3⟩, ⟨0, 0⟩, ⟨4, 0⟩, ⟨4, -3⟩]
   simp [offChain, onSeg, isLeft]
 
 /-- Full statement: for every closed flat subpath and every point off it, the model of
-`windings(RayIntersections(x,y))` is the winding number. FALSE for the code as it is (see
-`start_vertex_coincidence_defect`); proved below with the start vertex off the ray. -/
+`windings(RayIntersections(x,y))` is the winding number. -/
 def windings_refines_wn_statement : Prop :=
   ∀ (p : IPt) (poly : List IPt), offChain p (subpathVerts true poly) →
     windingsSub true p poly = .ok (wn1 p poly) false
 
 /-- Closed flat subpath (any number of vertices, self-intersections, vertices and horizontal edges on
-the ray allowed), query point on no segment, start vertex not on the ray to the right of the point:
-`windings(RayIntersections)` does not panic, reports no boundary and returns the winding number. -/
-theorem windings_refines_wn_partial (p a : IPt) (r : List IPt)
-    (hoff : offChain p (subpathVerts true (a :: r))) (hstart : fR p a = false) :
-    windingsSub true p (a :: r) = .ok (wn1 p (a :: r)) false :=
-  windingsSub_refines p a r hoff hstart
+the ray, the start vertex on the ray), query point on no segment: `windings(RayIntersections)`
+reports no boundary and returns the winding number. Full strength since 847036a (the two end-point
+hits of the start vertex are kept adjacent). -/
+theorem windings_refines_wn : windings_refines_wn_statement := by
+  intro p poly hoff
+  cases poly with
+  | nil => simp [windingsSub, rayHits, subHits, isort, windings, go, wn1]
+  | cons a r => exact windingsSub_refines p a r hoff
 
-/-- non-vacuity: an L-shaped polygon, ray along a horizontal edge through which the path steps -/
-example : offChain ⟨-1, 0⟩ (subpathVerts true [⟨4, -3⟩, ⟨-2, -3⟩, ⟨-2, 3⟩, ⟨0, 3⟩, ⟨0, 0⟩, ⟨4, 0⟩]) ∧
-    fR ⟨-1, 0⟩ ⟨4, -3⟩ = false := by
-  constructor
-  · simp [offChain, subpathVerts, onSeg, isLeft]
-  · decide
+/-- non-vacuity: an L-shaped polygon, ray along a horizontal edge through which the path steps; and
+the former start-vertex defect input (an edge passes through the start vertex, the point is level
+with it), now evaluated to its winding number 0 -/
+example : offChain ⟨-1, 0⟩ (subpathVerts true [⟨4, -3⟩, ⟨-2, -3⟩, ⟨-2, 3⟩, ⟨0, 3⟩, ⟨0, 0⟩, ⟨4, 0⟩]) := by
+  simp [offChain, subpathVerts, onSeg, isLeft]
 
-/-- The excluded class is a real defect: an edge passes through the start vertex, the point is level
-with it; the start vertex' two end-point hits are the first and last of the path and the other hit
-sorts between them: the real code indexes past the list (panic), the winding number is 0. -/
-theorem start_vertex_coincidence_defect :
-    offChain ⟨-1, 0⟩ (subpathVerts true [⟨2, 0⟩, ⟨4, 2⟩, ⟨0, -2⟩, ⟨4, -2⟩, ⟨0, 2⟩]) ∧
-    windingsSub true ⟨-1, 0⟩ [⟨2, 0⟩, ⟨4, 2⟩, ⟨0, -2⟩, ⟨4, -2⟩, ⟨0, 2⟩] = .panic ∧
-    wn1 ⟨-1, 0⟩ [⟨2, 0⟩, ⟨4, 2⟩, ⟨0, -2⟩, ⟨4, -2⟩, ⟨0, 2⟩] = 0 := by
-  refine ⟨by simp [offChain, subpathVerts, onSeg, isLeft], by decide +kernel, by decide⟩
+example : offChain ⟨-1, 0⟩ (subpathVerts true [⟨2, 0⟩, ⟨4, 2⟩, ⟨0, -2⟩, ⟨4, -2⟩, ⟨0, 2⟩]) ∧
+    windingsSub true ⟨-1, 0⟩ [⟨2, 0⟩, ⟨4, 2⟩, ⟨0, -2⟩, ⟨4, -2⟩, ⟨0, 2⟩] = .ok 0 false := by
+  refine ⟨by simp [offChain, subpathVerts, onSeg, isLeft], by decide +kernel⟩
 
-theorem windings_refines_wn_statement_fails : ¬ windings_refines_wn_statement := by
-  intro h
-  have := h ⟨-1, 0⟩ [⟨2, 0⟩, ⟨4, 2⟩, ⟨0, -2⟩, ⟨4, -2⟩, ⟨0, 2⟩] start_vertex_coincidence_defect.1
-  rw [start_vertex_coincidence_defect.2.1] at this
-  exact Outcome.noConfusion this
+/-- the rotation at the Close command: a hit list that starts with the start-hit and ends with the
+end-hit of the subpath's start vertex is handed to the sort with the end-hit in front -/
+theorem start_vertex_hits_made_adjacent (p v0 : IPt) (z0 e : Hit) (t : List Hit)
+    (h0 : z0.tb = .zero) (h1 : e.tb = .one) (hy : v0.y = p.y)
+    (hx0 : z0.x = (v0.x : Rat)) (hx1 : e.x = (v0.x : Rat)) :
+    rotateStart p v0 (z0 :: (t ++ [e])) = e :: z0 :: t :=
+  rotateStart_fire p v0 z0 e t h0 h1 hy hx0 hx1
 
-/-- `Path.Windings` on closed flat subpaths in that position is the winding number of the whole path -/
-theorem windingsPath_refines_partial (p : IPt) (subs : List Sub) (h : ∀ s ∈ subs, GoodSub p s) :
+/-- `Path.Windings` on closed flat subpaths, point off the path, is the winding number of the whole path -/
+theorem windingsPath_refines (p : IPt) (subs : List Sub) (h : ∀ s ∈ subs, GoodSub p s) :
     windingsPath p subs = .ok (wn p (subs.map (·.2))) false := by
   have := windingsPathGo_refines p subs h 0
   simpa [windingsPath] using this
 
 /-- `Path.Contains(x, y, rule)` is `rule.Fills(winding number)` -/
-theorem contains_refines_partial (rule : Rule) (p : IPt) (subs : List Sub)
+theorem contains_refines (rule : Rule) (p : IPt) (subs : List Sub)
     (h : ∀ s ∈ subs, GoodSub p s) :
-    containsPath rule p subs = some (rule.fills (wn p (subs.map (·.2)))) := by
-  simp [containsPath, windingsPath_refines_partial p subs h]
+    containsPath rule p subs = rule.fills (wn p (subs.map (·.2))) := by
+  simp [containsPath, windingsPath_refines p subs h]
 
 example : GoodSub ⟨1, 1⟩ (true, [⟨0, 0⟩, ⟨4, 0⟩, ⟨4, 4⟩, ⟨0, 4⟩]) := by
-  refine ⟨rfl, ⟨0, 0⟩, [⟨4, 0⟩, ⟨4, 4⟩, ⟨0, 4⟩], rfl, ?_, by decide⟩
+  refine ⟨rfl, ⟨0, 0⟩, [⟨4, 0⟩, ⟨4, 4⟩, ⟨0, 4⟩], rfl, ?_⟩
   simp [offChain, subpathVerts, onSeg, isLeft]
 
 /-- `Path.Filling`, inner loop for subpath i: the sum over the other subpaths is the winding number
 of the other contours around the start vertex of subpath i -/
-theorem filling_others_refines_partial (pos : IPt) (i : Nat) (subs : List Sub) (n : Int)
+theorem filling_others_refines (pos : IPt) (i : Nat) (subs : List Sub) (n : Int)
     (h : ∀ k (hk : k < subs.length), k ≠ i → GoodSub pos subs[k]) :
-    othersGo pos i subs 0 n = some (n + wnOthers pos i (subs.map (·.2)) 0) :=
+    othersGo pos i subs 0 n = n + wnOthers pos i (subs.map (·.2)) 0 :=
   othersGo_refines pos i subs 0 n (fun k hk hne => h k hk (by omega))
 
 example : ∀ k (hk : k < [((true, [⟨5, 5⟩, ⟨6, 5⟩, ⟨6, 6⟩]) : Sub), (true, [⟨0, 0⟩, ⟨9, 0⟩, ⟨9, 9⟩, ⟨0, 9⟩])].length),
@@ -253,7 +223,7 @@ example : ∀ k (hk : k < [((true, [⟨5, 5⟩, ⟨6, 5⟩, ⟨6, 6⟩]) : Sub),
   intro k hk hne
   have : k = 1 := by simp at hk; omega
   subst this
-  refine ⟨rfl, ⟨0, 0⟩, [⟨9, 0⟩, ⟨9, 9⟩, ⟨0, 9⟩], rfl, ?_, by decide⟩
+  refine ⟨rfl, ⟨0, 0⟩, [⟨9, 0⟩, ⟨9, 9⟩, ⟨0, 9⟩], rfl, ?_⟩
   simp [offChain, subpathVerts, onSeg, isLeft]
 
 /-- `Path.Crossings`: without a hit at the ray start, the count is the sum of the half-crossings:
